@@ -916,4 +916,4 @@ def coverage_extra(prop, tier, agg, jobs_):
             'sampled (thorough tier enumerates it)'}
 
 
-RULE_MORE = {'C13': ' Added in the build rounds: relative arguments and three cwds, option order shuffled, same-named decoy carts in the PICO-8 carts folders under $HOME, a warm-up build with require() earlier in the process, sources reached through a symlink and `..`, file names containing $NAME of a set variable, valid carts under non-cart names, empty-string and directory arguments, .p8 sources that omit all-zero sections, a symlinked source cart with #include, and a directed history "rebuild after an edit that changes only the quote style". Round 6: OUT read back with picotool\'s own reader (file.from_file) must agree with the prediction too, not only the reference reader; sources and previous OUTs whose regions are all zero (distinct from the `empty` defaults of sfx and music); data versions 5-41 and glyph characters in source and previous code; one arguments object (tool\'s parser, then the command function) used for two OUTs with only the output name changed. Round 7: steps before which every source cart is rewritten in place with other contents and its previous timestamps; --lua files whose first bytes are glyph characters (the bytes of a UTF-8 byte order mark); a working directory that has been deleted (all names absolute).'}
+RULE_MORE = {'C13': ' Added in the build rounds: relative arguments and three cwds, option order shuffled, same-named decoy carts in the PICO-8 carts folders under $HOME, a warm-up build with require() earlier in the process, sources reached through a symlink and `..`, file names containing $NAME of a set variable, valid carts under non-cart names, empty-string and directory arguments, .p8 sources that omit all-zero sections, a symlinked source cart with #include, and a directed history "rebuild after an edit that changes only the quote style". Round 6: OUT read back with picotool\'s own reader (file.from_file) must agree with the prediction too, not only the reference reader; sources and previous OUTs whose regions are all zero (distinct from the `empty` defaults of sfx and music); data versions 5-41 and glyph characters in source and previous code; one arguments object (tool\'s parser, then the command function) used for two OUTs with only the output name changed. Round 7: steps before which every source cart is rewritten in place with other contents and its previous timestamps; --lua files whose first bytes are glyph characters (the bytes of a UTF-8 byte order mark); a working directory that has been deleted (all names absolute). Round 8: .lua sources that end with a return statement at their root.'}
